@@ -97,16 +97,16 @@ def main():
                 except subprocess.TimeoutExpired:
                     class T: returncode = 124; stdout = "timeout"
                     return T()
+            # a recipe that names its source relatively ("g++ … demo.cpp … -o demo1") is meant to run in the demo's own directory
+            cwd = shdir if re.search(r"(?<![\w/.])demo\.(cpp|c)\b", cmdw) else scratch
             mo = re.search(r"-o\s+(\S+)", cmdw)
-            if mo and os.path.dirname(mo.group(1)): os.makedirs(os.path.join(scratch, os.path.dirname(mo.group(1))) if not os.path.isabs(mo.group(1)) else os.path.dirname(mo.group(1)), exist_ok=True)
-            rb = sh(cmdw, cwd=scratch)
+            exe = mo.group(1)
+            if not os.path.isabs(exe): exe = os.path.join(cwd, exe)
+            if os.path.dirname(exe): os.makedirs(os.path.dirname(exe), exist_ok=True)
+            rb = sh(cmdw, cwd=cwd)
             if rb.returncode != 0: return rb
-            exe = re.search(r"-o\s+(\S+)", cmdw).group(1)
-            if not os.path.isabs(exe): exe = os.path.join(scratch, exe)
-            try: return sh(exe, cwd=os.path.dirname(exe) or scratch, timeout=600)
-            except subprocess.TimeoutExpired:
-                class T: returncode = 124; stdout = "timeout"
-                return T()
+            try: return sh(exe, cwd=os.path.dirname(exe) or cwd, timeout=600)
+            except subprocess.TimeoutExpired: return subprocess.CompletedProcess(exe, 124, "TIMEOUT", "")
         rw = run_demo()
         res["demo_with_change_rc"] = rw.returncode; res["demo_with_change_tail"] = rw.stdout[-400:]
         sh("git checkout -- .", cwd=scratch)
